@@ -470,6 +470,9 @@ def gauss_points(n):
 
 def observe_nl(p, pd, req, kw):
     q = req["q"]
+    # the panel also carries buckling-load attributes (as when it is re-used from / for an lb() study): the
+    # non-linear quantities at a state, the undeformed state included, must not depend on them
+    p.Nxx, p.Nyy, p.Nxy = -3., 2., 1.
     c = np.array([float(fr(v)) for v in req["c"]])
     c0 = c.copy()
     nx, ny = gauss_orders(pd, req)
@@ -709,6 +712,8 @@ def random_req(rng, pd, q):
     if q in ("fint", "kT", "kGc"):
         amp = rng.choice([1, 1, 4, 32])
         r["c"] = [rat(Fraction(rng.randint(-8, 8), 16 * amp)) for _ in range(size)]
+        if rng.random() < 0.15:
+            r["c"] = [rat(0)] * size            # the undeformed state
         r["extra"] = [rng.choice([0, 1, 3, 9]), rng.choice([0, 2, 4, 5])]
         r["dflt"] = rng.random() < 0.5
         r["table"] = rng.random() < 0.4
@@ -787,6 +792,12 @@ def run_prop(prop, qs, tier, seed, build, nrand_quick=40, nrand_thorough=600, wh
         # a bay's skin is usually split at the stiffeners: 1, 2 or 3 skin panels side by side must give the same matrix
         pairs += [(pd, dict(r, via="bay", k0first=(k % 2 == 0), tiles=1 + k % 3)) for k, (pd, r) in enumerate(pairs) if pd["model"] != "plate_w"]
         pairs += [(pd, dict(r, sweep=True)) for (pd, r) in pairs if r["q"] in ("kA", "kAmach") and not r.get("via")]
+    if set(qs) & {"kT", "kGc", "fint"}:      # the undeformed state itself (exactly zero amplitudes) is a state like any other
+        nz = 0
+        for (pd, r) in list(pairs):
+            if r["q"] in ("kT", "kGc", "fint") and any(fr(v) != 0 for v in r["c"]) and nz < (6 if tier == "quick" else 40):
+                pairs.append((pd, dict(r, c=[rat(0)] * len(r["c"]))))
+                nz += 1
     if "kGc" in qs:      # the state-based matrix asked through Panel.lb right after a change of the laminate on ONE object
         for k, (pd, r) in enumerate(list(pairs)):
             if r["q"] == "kGc" and not r["NL"]:
